@@ -14,7 +14,7 @@ from typing import Any
 
 from hypothesis import strategies as st
 
-from vf.c02c03_harness import evaluate_case
+from vf.c02c03_harness import evaluate_case, run_shard
 from vf.core import Outcome
 from vf.gen import pygen
 
@@ -59,4 +59,10 @@ def strategy(ctx) -> st.SearchStrategy:
 
 
 def evaluate(case: dict[str, Any]) -> Outcome:
+    """One case in a forked child (used by ``./check --replay`` and for the replay files of known findings)."""
     return evaluate_case(case, "branch")
+
+
+def shard(ctx) -> None:
+    """The campaign of one shard: one supervised worker process, cases evaluated in-process (see ``run_shard``)."""
+    run_shard(ctx, strategy(ctx), "branch")
